@@ -284,8 +284,9 @@ def c12_random_request(rng):
         if rng.random() < 0.6: a += [b"LIMIT", str(rng.randint(-1, 5)).encode(), str(rng.randint(-1, 5)).encode()]
         return name, a
     if name == "CONFIG":
-        if rng.random() < 0.5: return name, [b"SET", rng.choice([b"maxmemory", b"x", b"y"]), v()]
-        return name, [b"GET"] + [rng.choice([b"maxmemory", b"x", b"y", b"nope"]) for _ in range(rng.randint(1, 3))]
+        # (parameter names in mixed case too: what was stored under a name is what is read back under that name)
+        if rng.random() < 0.5: return name, [b"SET", rng.choice([b"maxmemory", b"x", b"y", b"MAXMEMORY", b"Max-Clients", b"X"]), v()]
+        return name, [b"GET"] + [rng.choice([b"maxmemory", b"x", b"y", b"nope", b"MAXMEMORY", b"Max-Clients", b"X"]) for _ in range(rng.randint(1, 3))]
     if name == "DEL": return name, [rng.choice([b"s1", b"h1", b"t1", b"z1", b"n1"])]
     if name == "RPUSH": return name, [b"l1", v()]
     return "PING", []
